@@ -27,7 +27,9 @@ Families
      value, a parameter / block / tag description
   N  mixed-case parameter names and names differing only in case (distinct, kept as written, in order)
   D  ordinary blocks using a deprecated tag-style annotation (Rename to:, Value:, ...) with no parameter
-     or tag before it and something after it: parsed, not lost, parameters / tags kept, round trip stable
+     or tag before it and something after it, and blocks whose tag line is spelled unusually (blank / tab /
+     NBSP inside two-word tag names, any letter case, Unicode case-fold look-alikes): parsed, not lost,
+     parameters / tags kept, round trip stable (for odd spellings: block, name and parameters survive)
   B  every model built from an identifier menu x <=2 parameters x description menu x <=2 tags,
      under a covering set of layouts (quick) / a larger product (thorough)
 """
@@ -397,7 +399,7 @@ def check_deprecated(text, info):
         problems.append(('tree', 'name: expected "foo_bar", observed %r' % raw['name'], {'text': text}))
     pn = [p[0] for p in raw['params']]
     tn = [t[0] for t in raw['tags']]
-    if pn != info['params'] or tn != info['tags']:
+    if pn != info['params'] or (info['tags'] is not None and tn != info['tags']):
         problems.append(('tree', 'parameters %r / tags %r, written %r / %r' % (pn, tn, info['params'], info['tags']),
                          {'text': text, 'observed': raw}))
     for indent in (True, False):
@@ -409,7 +411,12 @@ def check_deprecated(text, info):
         b2, recs2, exc2 = B.parse(w[:-1] if w.endswith('\n') else w)
         evals += 1
         v2 = B.abstract(b2)
-        if exc2 is not None or v2 != raw:
+        if not info.get('plain', True) and v2 is not None:
+            # unusually spelled tag name: what it denotes is UNSPECIFIED, the block itself must survive
+            same = v2['name'] == raw['name'] and [p[0] for p in v2['params']] == pn
+        else:
+            same = v2 == raw
+        if exc2 is not None or not same:
             problems.append(('roundtrip', 'write(indent=%s) then parse gives a different block: %s' % (
                 indent, exc2 or _diff(raw, v2)), {'text': text, 'written': w, 'reparsed': v2, 'first': raw}))
     return problems, evals, raw
@@ -495,7 +502,7 @@ def run(ctx):
     for r in pmap(_work, rotate(chunks, ctx.seed)):
         ctx.merge(r)
     if not only or 'D' in only:
-        D = list(enumerate(B.deprecated_tag_blocks()))
+        D = list(enumerate(B.deprecated_tag_blocks() + B.odd_tag_blocks()))
         ctx.cov['bounds']['family_D'] = {'texts': len(D)}
         for r in pmap(_work_D, rotate([D[i::16] for i in range(16) if D[i::16]], ctx.seed)):
             ctx.merge(r)
